@@ -156,6 +156,33 @@ class Socket:
         ghost.WIRE = ghost.WIRE + bytes(data)[:n]
         return n
 
+    def _recv_fails(self):
+        k = nondet_int()
+        if k == 0:
+            raise BlockingIOError
+        if k == 1:
+            raise InterruptedError
+        if k == 2:
+            raise_any(OSError, BlockingIOError, InterruptedError)
+        ghost.recv_calls = ghost.recv_calls + 1
+
+    def recv(self, bufsize):
+        self._recv_fails()
+        d = nondet_bytes()
+        assume(len(d) <= bufsize)
+        ghost.IN = ghost.IN + d
+        ghost.EOF = ghost.EOF or len(d) == 0
+        return d
+
+    def recv_into(self, buffer):
+        self._recv_fails()
+        d = nondet_bytes()
+        assume(len(d) <= len(buffer))
+        buffer[:len(d)] = d
+        ghost.IN = ghost.IN + d
+        ghost.EOF = ghost.EOF or len(d) == 0
+        return len(d)
+
 
 def supports_socket_sendmsg(sock):
     return nondet_bool()
